@@ -44,6 +44,8 @@ REAL_VS_STUB = {
              "fasteners lock logic (uncontended)"],
     "stub": ["raw disk + namespace (SimFS)", "fcntl lock table (SimLockMech)", "clock"],
 }
+FAULT_PROBES = {"duplicate_key_put": "dup_rejected", "oversize_key_put": "key_256_rejected", "write_through_readonly_handle": "readonly_write_rejected",
+                "use_of_closed_handle": "closed_handle_rejected", "non_bytes_value": "badvalue_rejected"}
 PROBES = ["shortcut_taken", "rescan_forced_by_other_handle", "rescan_after_failed_put", "flush_by_bufsize_threshold", "key_255", "key_256_rejected",
           "direct_raw_write", "dup_rejected", "readonly_write_rejected", "closed_handle_rejected", "clone_used", "queued_key_read_in_session",
           "deferred_failure_at_session_end", "history_len_le_6", "badvalue_rejected", "read_after_deferred_dup", "put_raised_for_an_earlier_queued_item"]
